@@ -1457,6 +1457,19 @@ class Planner:
                     self.emit(["cmp", None, tw[0], tw[1]])
                     self.emit(["cmp", None, tw[1], tw[0]])
             return None
+        if k == 8 and r.random() < 0.3:
+            # the low-level route: group the integrals, then construct FormData directly
+            G = self.call("sim.ops.grouped_form", self.ref(f), kind="form", keep_failed=kf)
+            if G is not None and G in self.node.slots and isinstance(self.obj(G), Form):
+                self.forms.append((G, rank, self.meshes.index(M)))
+                kw = {}
+                for flag in ("do_replace_functions", "do_apply_restrictions", "do_apply_default_restrictions", "complex_mode"):
+                    if r.random() < 0.5:
+                        kw[flag] = r.random() < 0.7
+                fd = self.call("sim.ops.formdata_lowlevel", self.ref(G), kind="formdata", keep_failed=kf, **kw)
+                if fd is not None:
+                    self.emit(["call", self.new(), "sim.ops.fd_touch", [self.ref(fd)]], keep_failed=kf)
+            return None
         if k == 8:
             fd = self.call("sim.ops.form_data", self.ref(f), kind="formdata", keep_failed=kf, **self.cfd_options())
             if fd is not None:
